@@ -498,6 +498,36 @@ example : httpServerValid oTrue (hsDoc "^1$") = true ∧ httpServerInitOK oTrue 
     httpServerValid ⟨fun _ => false, fun _ => some 1, fun _ => true, fun _ _ _ => true, fun _ => true⟩ (hsDoc "(") = false := by
   decide
 
+/-! ### MQTTProxy object -/
+
+/-- **An accepted MQTTProxy spec starts its broker without panicking** (repaired: `Spec.Validate` of
+`fixes/C13-mqttproxy-rules.patch` runs the very `getPipelineMap` that `newBroker` turns into a panic, after
+checking that every rule has a `when`). Full statement, every document. -/
+theorem valid_implies_init_ok_MQTTProxy (j : J) : mqttProxyValid j = true → mqttProxyInitOK j = true := by
+  unfold mqttProxyValid
+  intro h
+  rw [Bool.and_eq_true] at h
+  exact h.2
+
+/-- The code as found (no `Validate()` on the MQTTProxy spec) violates the property, three ways: a rule
+without `when` (nil dereference in `getPipelineMap`), an unknown packet type and a repeated packet type
+(`panic("create pipeline map failed …")` in `newBroker`) are all accepted. Replayed on the real code:
+`corpus/C13/mqtt.jsonl` 9301–9303. -/
+theorem mqttProxy_unrepaired_violates :
+    (mqttProxyValidUnrepaired (.obj [("port", .num 0 0), ("rules", .arr [.obj [("pipeline", .str "p")]])]) = true ∧
+      mqttRuleGuard [.obj [("pipeline", .str "p")]] [] = some "MQTTProxy.rules.when-missing") ∧
+    (mqttProxyValidUnrepaired (.obj [("rules", .arr [.obj [("when", .obj [("packetType", .str "publish")])]])]) = true ∧
+      mqttRuleGuard [.obj [("when", .obj [("packetType", .str "publish")])]] [] = some "MQTTProxy.rules.unknown-packet-type") ∧
+    mqttRuleGuard [.obj [("when", .obj [("packetType", .str "Publish")])],
+                   .obj [("when", .obj [("packetType", .str "Publish")])]] [] = some "MQTTProxy.rules.repeated-packet-type" := by
+  decide
+
+/-- non-vacuity: a proxy routing three packet types is accepted -/
+example : mqttProxyValid (.obj [("port", .num 1883 0), ("rules", .arr [
+    .obj [("when", .obj [("packetType", .str "Connect")]), ("pipeline", .str "auth")],
+    .obj [("when", .obj [("packetType", .str "Publish")]), ("pipeline", .str "kafka")],
+    .obj [("when", .obj [("packetType", .str "Subscribe")]), ("pipeline", .str "acl")]])]) = true := by decide
+
 /-- every function with a `panic(` / `MustCompile(` / `template.Must(` in the anchored packages is
 mapped (with its call count) to a modelled guard, an allow-list entry or an explicit not-covered entry. -/
 theorem guard_table_complete :
